@@ -64,6 +64,7 @@ pub fn ls_check(id: &str) -> Option<LsCheck> {
             profile: Profile {
                 name: "current-value",
                 interpose: 4,
+                patience_per_10k: 12,
                 w: w(|w| {
                     w.remove = 14;
                     w.clear = 3;
@@ -191,6 +192,8 @@ pub fn ls_check(id: &str) -> Option<LsCheck> {
             profile: Profile {
                 name: "admission-in-the-cache",
                 cap: Cap::Tight,
+                modes: vec![Mode::Quiescent, Mode::Quiescent, Mode::Schedule],
+                buffer_sizes: vec![1, 2, 4, 64, 64],
                 ttl_pct: 30,
                 periodic_pct: 40,
                 big_advances: false,
@@ -200,7 +203,7 @@ pub fn ls_check(id: &str) -> Option<LsCheck> {
                     w.insert = 36;
                     w.get = 30;
                     w.policy = 10;
-                    w.remove = 3;
+                    w.remove = 7;
                     w.clear = 1;
                     w.umc = 2;
                     w.adv = 18;
@@ -211,7 +214,7 @@ pub fn ls_check(id: &str) -> Option<LsCheck> {
             },
             quick: 24_000,
             thorough: 300_000,
-            rule: "lock-step cases with tight capacity, mixed costs and popularity shaped by lookups through the real ring buffer and the parked policy worker: what the policy decides must be carried out by the processor (room => admitted and nothing evicted; every victim leaves the store and reaches on_evict, also when the newcomer is rejected in a later round; a rejected newcomer reaches on_reject); non-trivial = an admission with eviction or an evict-then-reject decision; distinct by case hash",
+            rule: "lock-step cases (a third in schedule mode, insert buffers of 1, 2, 4 and 64 slots, so that removes and updates also meet a full buffer) with tight capacity, mixed costs and popularity shaped by lookups through the real ring buffer and the parked policy worker: what the policy decides must be carried out by the processor (room => admitted and nothing evicted; every victim leaves the store and reaches on_evict, also when the newcomer is rejected in a later round; a rejected newcomer reaches on_reject); non-trivial = an admission with eviction or an evict-then-reject decision; distinct by case hash",
             nontrivial: |f| f.admissions_with_eviction > 0 || f.evict_then_reject > 0,
             assumptions: &["which candidates are sampled and how ties break is left to the implementation (the rule itself is checked at policy level by the component engine)"],
             scenarios: vec![],
@@ -286,6 +289,7 @@ pub fn ls_check(id: &str) -> Option<LsCheck> {
             profile: Profile {
                 name: "clear",
                 interpose: 10,
+                patience_per_10k: 12,
                 interpose_clear_only: true,
                 keys: (2, 4),
                 ttl_pct: 50,
@@ -559,6 +563,7 @@ pub fn failures_for(prop: &str, case: &Case, stats: Option<&Stats>, nontrivial: 
                     ("reclaimed_by_tick", f.reclaimed > 0),
                     ("ttl_switch", f.ttl_switches > 0),
                     ("clear", f.clears > 0),
+                    ("patient_clear", f.patient_clears > 0),
                     ("clear_with_pending", f.clears_with_pending > 0),
                     ("veto", f.vetoes > 0),
                     ("dropped_set", f.dropped_sets > 0),
@@ -936,7 +941,7 @@ pub fn stress_parts(id: &str) -> Vec<StressPart> {
         "C18" => vec![pc(Kind::Invariants, 4800, 40000, 25)],
         "C13" => vec![p(Kind::Lookups, 320, 6000, 35)],
         "C10" => vec![p(Kind::Barrier, 640, 12000, 25), p(Kind::WaitRace, 640, 12000, 25)],
-        "C12" => vec![p(Kind::Close, 960, 16000, 30)],
+        "C12" => vec![p(Kind::Close, 2880, 24000, 30)],
         "C20" => vec![p(Kind::Config, 960, 16000, 30), p(Kind::Close, 480, 8000, 30)],
         "C19" => vec![
             p(Kind::Invariants, 320, 6000, 100),
